@@ -78,6 +78,14 @@ CLAIMED["C09"] = ("Structural clauses on simplify.c: (a) simplify/usedp walker a
     "walker field-set agreement; kind-set dataflow probe at the literal construction; edge-dominance of the guard over the substitution push",
     "3 C09")
 
+CLAIMED["C07"] = ("One clause: every identifier that an explicit-renaming macro shipped in the R7RS-small closure (lib/init-7.scm and the files "
+    "included by the libraries (scheme base) ... (scheme r5rs) import) inserts into its expansion - a symbol in a quasiquote template outside "
+    "unquote, or a quoted symbol handed to list/cons/append - goes through the macro's renamer; a bare inserted identifier captures or is "
+    "captured by a user binding of that name. Decides this necessary condition of hygiene for the shipped derived forms, not the expander's "
+    "identifier resolution.",
+    "syntax-tree lint over Scheme sources (own s-expression reader; library import/include graph; template walk)",
+    "3 C07")
+
 # properties planned in DESIGN.md but whose checks are not built yet are listed
 # as not applicable *for now* with that reason, so the manifest never over-claims
 PENDING = {}
